@@ -25,6 +25,10 @@
 typedef struct IC2 IC2;
 //@struct Pomerol::IndexCombination2
 //@tu src/pomerol/Index.cpp
+/* twins for the other spelling of an increment (`++it` for `it++` and vice versa): same effect.  X_inc yields the iterator after the step
+ * (exact); X_postinc made from X_inc is void, so a use of its value does not compile (UNDECIDED) instead of being modelled wrongly */
+#define GMapIt_inc(it_) (GMapIt_postinc(it_), (it_))      /* pre-increment: the iterator itself, after the step */
+#define ISetIt_inc(it_) (ISetIt_postinc(it_), (it_))      /* pre-increment: the iterator itself, after the step */
 //@function Pomerol::IndexCombination2::IndexCombination2(unsigned int, unsigned int) as IC2_ctor2
 //@end
 //@function Pomerol::IndexCombination2::operator<(Pomerol::IndexCombination2 const&) const as IC2_lt
